@@ -373,6 +373,29 @@ def check(run):
             elif wa != fa or wb != fb:
                 run.fail('same-name-mapreduce-value', 'mapreduce with jf_c17.cat/wrap and with jf_c17b.cat/wrap in one store (n=%d, map_step=%d, task generators: %s) give %r and %r; functools.reduce gives %r and %r'
                          % (n, ms, tg, wa, wb, fa, fb), rp)
+    # ---------------- several reducers over the same mapper, inputs and steps in one store (a total and a maximum of the same mapped data): each gets its own value
+    from jug import TaskGenerator as _TG
+    reducers = [('cat', F.cat), ('first', F.first), ('last', F.last), ('revcat', F2.cat)]
+    for n, ms, rtg, mtg in itertools.product([2, 5] if quick else [2, 3, 5, 9], [1, 2] if quick else [1, 2, 4], (False, True), (False, True)):
+        jugenv.reset()
+        del F.CALLS[:]
+        xs = list(range(n))
+        rp = {'kind': 'reducers-sharing-a-mapper', 'n': n, 'ms': ms, 'reducers_are_taskgenerators': rtg, 'mapper_is_taskgenerator': mtg}
+        run.case(('shared-mapper', n, ms, rtg, mtg), nontrivial=True)
+        run.count('shared_mapper_cases')
+        try:
+            from jug.mapreduce import mapreduce as jmr
+            mapper = F.tg_wrap if mtg else F.wrap
+            ts = [jmr(_TG(r) if rtg else r, mapper, xs, map_step=ms, reduce_step=2) for _, r in reducers]
+            jugenv.run_all()
+            got = [value(t) for t in ts]
+        except Exception as e:
+            run.fail('shared-mapper-raises', 'mapreduce with several reducers over one mapper raised %r (n=%d map_step=%d reducers TaskGenerators: %s, mapper: %s)' % (e, n, ms, rtg, mtg), rp)
+            continue
+        exp = [functools.reduce(r, [[x] for x in xs]) for _, r in reducers]
+        if got != exp:
+            run.fail('shared-mapper-value', 'mapreduce(r, wrap, range(%d), map_step=%d) for r in %s in one store (reducers are TaskGenerators: %s, mapper is: %s) gives %r; functools.reduce gives %r'
+                     % (n, ms, [nm for nm, _ in reducers], rtg, mtg, got, exp), rp)
     # ---------------- None and falsy values among the mapped / reduced values; reducers for which None is not neutral
     for n, ms, rs in itertools.product([1, 2, 3, 4, 6, 9] if quick else range(1, 14), [1, 2, 3] if quick else [1, 2, 3, 4, 5], [2, 3] if quick else [2, 3, 4, 5]):
         xs = list(range(n))
